@@ -1,11 +1,31 @@
 #!/bin/bash
 # usage: run_seeded.sh <seeded-id e.g. C02A> [property ids...]   (applies the patch to /repo, runs checks, reverts)
+# prints, per property, the exit code and the violated obligations grouped by kind (P deductive / F finite / B bounded)
 id=$1; shift
 props="$@"; [ -z "$props" ] && props=${id:0:3}
 cd /repo && git diff --quiet || { echo "/repo not clean"; exit 9; }
 trap 'git -C /repo checkout -- . ' EXIT
 git -C /repo apply /verif/seeded/$id/patch.diff || exit 9
 for p in $props; do
-  out=$(cd /verif && timeout 1500 ./check $p quick 2>&1); rc=$?; out=$(echo "$out" | grep -v WARNING)
-  echo "[$id] $p exit=$rc :: $(echo "$out" | head -3 | cut -c1-260 | tr '\n' '|')"
+  out=$(cd /verif && timeout 1800 ./check $p quick 2>&1); rc=$?; out=$(echo "$out" | grep -v WARNING)
+  summary=$(echo "$out" | python3 -c "
+import sys, json, re
+P=F=B=0; names=[]
+other=[]
+for l in sys.stdin:
+    m=re.match(r'VIOLATION property=\S+ replay=(\S+)', l)
+    if m:
+        try:
+            v=json.load(open(m.group(1)))
+        except Exception:
+            continue
+        k=v.get('kind')
+        if k=='bounded' or 'bounded' in v.get('obligation',''): B+=1; names.append('B:'+v['obligation'][:70])
+        elif k=='finite': F+=1; names.append('F:'+v['obligation'][:70])
+        else: P+=1; names.append('P:'+v['obligation'].split('.')[-1][:70]+('' if v.get('input_found') else ' (no input)'))
+    elif l.strip() and not l.startswith('KNOWN-FINDING'):
+        other.append(l.strip()[:160])
+print(f'P={P} F={F} B={B} ::', ' | '.join(names[:6]), ' || '.join(other[:2]))
+")
+  echo "[$id] $p exit=$rc $summary"
 done
